@@ -48,6 +48,42 @@ def any_perms(r):
     return ",".join(out or ["ev"])
 
 
+# ---- the KIND of value written / read.  The model carries values without looking into them (theorems
+# *_value_parametric in Props/C13.v), so a non-int JSON value is handed to the implementation as the real object and to
+# the model as an integer code; ints (0, negative, > 2**32 included) stand for themselves.
+VALS = {901: False, 902: None, 903: "", 904: 0.0, 905: True, 906: "on", 907: 1.5}
+_VAL_CODE = {(type(o).__name__, json.dumps(o)): c for c, o in VALS.items()}
+SPECIAL_VALUES = [0, 901, 902, 903, 904, 905, 906, 907, -5, 2 ** 40]     # falsy ones first
+SPECIAL_U8 = [0, 255]                                                    # CoAP / BLE rigs use a uint8 characteristic
+
+
+def impl_val(v):
+    return VALS.get(v, v) if type(v) is int else v
+
+
+def val_code(o):
+    if type(o) is int:
+        return o
+    try:
+        return _VAL_CODE.get((type(o).__name__, json.dumps(o)), "?" + repr(o)[:20].replace(" ", "_"))
+    except (TypeError, ValueError):
+        return "?" + type(o).__name__
+
+
+def val_kind(v):
+    if v is None:
+        return "absent"
+    if v in VALS:
+        o = VALS[v]
+        return type(o).__name__ + (":falsy" if not o else "")
+    return "int:0" if v == 0 else ("int:neg" if v < 0 else ("int:big" if v > 2 ** 32 else "int"))
+
+
+def pick_value(ctr, default, special=SPECIAL_VALUES, every=3):
+    """deterministic: every `every`-th draw is one of the special values, in rotation"""
+    return special[(ctr // every) % len(special)] if ctr % every == 0 else default
+
+
 # the kind of container the caller hands to get_/put_characteristics (the APIs are annotated Iterable)
 CONTAINERS = ["list", "tuple", "gen", "iter", "map", "view", "set"]
 ONE_SHOT = ("gen", "iter", "map")
@@ -71,7 +107,9 @@ def pick_container(idx, items, ordered, kinds=None):
 
 def wrap(items, case):
     kind = case.get("container", "list")
-    items = [tuple(x) for x in items]
+    items = [tuple(x[:2]) + (impl_val(x[2]),) if len(x) == 3 else tuple(x) for x in items]
+    if kind in ("view", "set") and len(set(items)) != len(items):
+        kind = "tuple"                   # False == 0, True == 1: a hashed container would drop an item
     if kind == "tuple":
         return tuple(items)
     if kind == "gen":
@@ -85,6 +123,62 @@ def wrap(items, case):
     if kind == "set":
         return set(items)
     return items
+
+
+# ---- the caller changes its own argument WHILE the call is suspended (the request is in flight): the request
+# set is what was handed over at call time, so results / listeners must still be about exactly that
+INFLIGHT = ["clear", "append", "replace", "setval"]
+EXTRA_VALUE = 251
+
+
+def extra_id(ids):
+    for k in POOL:
+        if k not in ids:
+            return k
+    return None
+
+
+def mutate_inflight(arg, mode, write):
+    """arg: the very list / set object the caller passed.  Returns what was done (for the histogram)."""
+    ids = [tuple(x[:2]) for x in arg]
+    ex = extra_id(ids)
+    if ex is None or not ids:
+        mode = "clear"
+    if isinstance(arg, set):
+        if mode == "clear":
+            arg.clear()
+        elif mode == "append":
+            arg.add(ex)
+        elif mode == "replace":
+            arg.clear()
+            arg.add(ex)
+        else:
+            arg.discard(sorted(arg)[0])
+            arg.add(ex)
+        return "set:" + mode
+    if mode == "clear":
+        arg.clear()
+    elif mode == "append":
+        arg.append(ex + (EXTRA_VALUE,) if write else ex)
+    elif mode == "replace":
+        arg[:] = [ex + (EXTRA_VALUE,), ids[0] + (EXTRA_VALUE + 1,)] if write else [ex]
+    else:
+        arg[0] = ids[0] + (EXTRA_VALUE + 2,) if write else ex
+    return "list:" + mode
+
+
+def inflight_copies(cases, key, kinds, every):
+    """every `every`-th case again, handed over as a mutable container that changes while the request is in flight"""
+    out = []
+    for idx, c in enumerate(cases):
+        if idx % every or not c.get(key):
+            continue
+        j = idx // every
+        kind = kinds[j % len(kinds)]
+        if kind == "set" and len({tuple(x) for x in c[key]}) != len(c[key]):
+            kind = "list"
+        out.append(dict(c, container=kind, inflight=INFLIGHT[(j // len(kinds)) % len(INFLIGHT)]))
+    return out
 
 
 def perm_class(p):
@@ -122,7 +216,7 @@ def entry_json(e, with_status_key=True):
     if st is not None:
         d["status"] = st
     if val is not None:
-        d["value"] = val
+        d["value"] = impl_val(val)
     return d
 
 
@@ -188,6 +282,8 @@ def canon_read_result(res, table="hap"):
         val = v.get("value")
         if isinstance(val, (bytes, bytearray)):
             val = "b" + bytes(val).hex()
+        elif "value" in v:
+            val = val_code(val)
         st = status_val(v.get("status"))
         out[k] = (st, descr_tok(v.get("description"), table) + ("+" + ",".join(extra) if extra else ""), val)
     return out
@@ -222,7 +318,7 @@ def merge_log(log):
         if not ev:
             out.empty += 1
         for k, v in sorted(ev.items()):
-            val = v.get("value") if isinstance(v, dict) else "?"
+            val = val_code(v["value"]) if isinstance(v, dict) and "value" in v else "?"
             out[k] = val
             out.deliv.append((k, val))
     return out
@@ -308,6 +404,21 @@ class Rig:
     async def _noop(self, *a, **k):
         return None
 
+    _armed = None
+    inflight_done = None
+
+    def arm(self, arg, case, write):
+        """returns arg; when the case asks for it, the accessory stub changes `arg` when the first request arrives"""
+        self.inflight_done = None
+        self._armed = (arg, case["inflight"], write) if case.get("inflight") and isinstance(arg, (list, set)) else None
+        return arg
+
+    def fire(self):
+        if self._armed is not None:
+            arg, mode, write = self._armed
+            self._armed = None
+            self.inflight_done = mutate_inflight(arg, mode, write)
+
     def set_perms(self, perms):
         from aiohomekit.model import AccessoriesState
         full = {k: RW for k in POOL}
@@ -333,8 +444,10 @@ class IpRig(Rig):
         self.table = None          # reactive mode: {(aid, iid): outcome}, answered per request actually sent
         self.sent = []             # reactive mode: ids of each request sent, in order
         self.replied = []          # reactive mode: entries of each 207 reply given, in order
+        self.sent_vals = []        # reactive mode: (aid, iid, value code) of every item received
 
         async def fake_get(target):
+            self.fire()
             if self.table is None:
                 return self.reply
             # reactive accessory: answer exactly the ids of THIS request
@@ -354,11 +467,13 @@ class IpRig(Rig):
             return Resp(207 if bad else 200, json.dumps({"characteristics": [entry_json(e) for e in entries]}).encode())
 
         async def fake_put(target, body, content_type=None):
+            self.fire()
             if self.table is None:
                 return self.reply
             items = json.loads(bytes(body))["characteristics"]
             ids = [(it["aid"], it["iid"]) for it in items]
             self.sent.append(ids)
+            self.sent_vals += [(it["aid"], it["iid"], val_code(it["value"]) if "value" in it else "?missing") for it in items]
             entries = [["E", a, i, self.table.get((a, i), -70409), None] for a, i in ids]
             if all(e[3] == 0 for e in entries):
                 return Resp(204, b"")                      # everything in this request accepted
@@ -372,35 +487,39 @@ class IpRig(Rig):
         self.table = {tuple(map(int, k.split("."))): tuple(v) for k, v in case["table"].items()}
         self.sent, self.replied = [], []
         try:
-            res = await self.pairing.get_characteristics(wrap(case["req"], case))
+            res = await self.pairing.get_characteristics(self.arm(wrap(case["req"], case), case, False))
             res = canon_read_result(res)
         except Exception as e:  # noqa
             res = exc_class(e)
         finally:
             self.table = None
+            self._armed = None
         return res
 
     async def put_reactive(self, case):
         self.set_perms({tuple(map(int, k.split("."))): p for k, p in case["perms"].items()})
         self.table = {tuple(map(int, k.split("."))): v for k, v in case["table"].items()}
-        self.sent, self.replied = [], []
+        self.sent, self.replied, self.sent_vals = [], [], []
         self.log.clear()
         try:
-            res = await self.pairing.put_characteristics(wrap(case["reqs"], case))
+            res = await self.pairing.put_characteristics(self.arm(wrap(case["reqs"], case), case, True))
             res = (canon_write_result(res), merge_log(self.log))
         except Exception as e:  # noqa
             res = exc_class(e)
         finally:
             self.table = None
+            self._armed = None
         return res
 
     async def get(self, case):
         self.set_perms({})
         self.reply = Resp(207 if case["entries"] else 200, json.dumps(read_data(case)).encode())
         try:
-            res = await self.pairing.get_characteristics(wrap(case["req"], case))
+            res = await self.pairing.get_characteristics(self.arm(wrap(case["req"], case), case, False))
         except Exception as e:  # noqa
             return exc_class(e)
+        finally:
+            self._armed = None
         return canon_read_result(res)
 
     async def put(self, case):
@@ -457,6 +576,7 @@ class CoapRig(Rig):
             coap_ctx = object()
 
             async def post_all(self, opcode, iids, data):
+                rig.fire()
                 rig.calls.append((opcode.value, list(iids)))
                 return list(rig.script)
         self.calls = []
@@ -469,11 +589,14 @@ class CoapRig(Rig):
         self.reactive_enc = EncryptionContext(None, None, None, "coap://x/", object())
         self.table = {}
         self.sent = []
+        self.sent_bodies = []
 
         async def post_bytes(payload, timeout=16.0):
+            rig.fire()
             out, off, req = b"", 0, []
             while off < len(payload):
                 _ctl, opcode, tid, iid, ln = struct.unpack("<BBBHH", payload[off:off + 7])
+                rig.sent_bodies.append((iid, bytes(payload[off + 7:off + 7 + ln]).hex()))
                 off += 7 + ln
                 req.append((opcode, iid))
                 o = rig.table.get(iid, ["S", 4])
@@ -494,17 +617,19 @@ class CoapRig(Rig):
         self.set_perms({tuple(map(int, k.split("."))): p for k, p in case.get("perms", {}).items()})
         self.table = {int(i): o for i, o in case["table"].items()}
         self.sent = []
+        self.sent_bodies = []
         self.log.clear()
         self.pairing.connection.enc_ctx = self.reactive_enc
         try:
             if write:
-                res = await self.pairing.put_characteristics(wrap(case["reqs"], case))
+                res = await self.pairing.put_characteristics(self.arm(wrap(case["reqs"], case), case, True))
                 return canon_write_result(res, "pdu"), merge_log(self.log)
-            res = await self.pairing.get_characteristics(wrap(case["ids"], case))
+            res = await self.pairing.get_characteristics(self.arm(wrap(case["ids"], case), case, False))
             return canon_read_result(res, "pdu")
         except Exception as e:  # noqa
             return exc_class(e)
         finally:
+            self._armed = None
             self.pairing.connection.enc_ctx = self.scripted_enc
 
     async def get(self, case):
@@ -582,7 +707,7 @@ class BleRig(Rig):
             if len(ev) != 1:                       # BLE announces each accepted item on its own
                 notes.append(f"?call-with-{len(ev)}-ids")
             for k, v in ev.items():
-                notes.append(f"{ks(k)}={v.get('value')}")
+                notes.append(f"{ks(k)}={val_code(v.get('value'))}")
         return ("N " + " ".join(notes)).strip() + " ; " + out
 
 
@@ -876,7 +1001,7 @@ def gen_ipput(tier, r):
         pm = list(itertools.product([RW, WO, RWT], repeat=n))
         for layout in LAYOUTS[n]:
             for vec in itertools.product(alpha, repeat=n):
-                reqs = [(a, i, 20 + j) for j, (a, i) in enumerate(layout)]
+                reqs = [(a, i, pick_value(ctr + j, 20 + j)) for j, (a, i) in enumerate(layout)]
                 perms = {ks(k): p for k, p in zip(layout, pm[ctr % len(pm)])}
                 ctr += 1
                 cases.append(dict(kind="ipput", src="vec", reqs=reqs, perms=perms, code="207",
@@ -884,8 +1009,9 @@ def gen_ipput(tier, r):
     # W2: shapes - listed subsets x permission mixes x order, 204
     for n in range(1, nmax + 1):
         for layout in LAYOUTS[n]:
-            reqs = [(a, i, 30 + j) for j, (a, i) in enumerate(layout)]
             for pmix in itertools.product([RW, WO], repeat=n):
+                ctr += 1
+                reqs = [(a, i, pick_value(ctr + j, 30 + j, every=2)) for j, (a, i) in enumerate(layout)]
                 perms = {ks(k): p for k, p in zip(layout, pmix)}
                 cases.append(dict(kind="ipput", src="shape", reqs=reqs, perms=perms, code="204", entries=[]))
                 for g in (-70407, 70403, -1, 12345, 0, None):      # request-wide status, no list
@@ -903,7 +1029,7 @@ def gen_ipput(tier, r):
         ids = r.sample(POOL, n)
         if r.random() < 0.15:
             ids.append(r.choice(ids))
-        reqs = [(a, i, r.randrange(1, 200)) for a, i in ids]
+        reqs = [(a, i, r.choice(SPECIAL_VALUES) if r.random() < 0.3 else r.randrange(1, 200)) for a, i in ids]
         perms = {ks(k): (r.choice([RW, RW, WO, RWT, RO, WT]) if r.random() < 0.5 else any_perms(r)) for k in ids}
         code = r.choices(["207", "204", "207empty", "nolist"], [85, 9, 3, 3])[0]
         es = []
@@ -944,7 +1070,7 @@ def gen_read(tier, r):
                 es = []
                 for (a, i), s in zip(layout, vec):
                     ctr += 1
-                    val = 40 + ctr % 7 if (s in (None, 0) or ctr % 5 == 0) else None
+                    val = pick_value(ctr, 40 + ctr % 7, every=4) if (s in (None, 0) or ctr % 5 == 0) else None
                     es.append(["E", a, i, s, val])
                 cases.append(dict(kind="read", src="vec", g=None, req=[list(k) for k in layout], entries=es))
     # R2: global status x listed subsets x requested-set variants
@@ -954,7 +1080,9 @@ def gen_read(tier, r):
                 for mask in range(1 << n):
                     listed = [k for j, k in enumerate(layout) if mask >> j & 1]
                     for vec in itertools.product([None] + A_RED2, repeat=len(listed)):
-                        es = [["E", a, i, s, 50 + j if s in (None, 0) else None] for j, ((a, i), s) in enumerate(zip(listed, vec))]
+                        ctr += 1
+                        es = [["E", a, i, s, pick_value(ctr + j, 50 + j, every=4) if s in (None, 0) else None]
+                              for j, ((a, i), s) in enumerate(zip(listed, vec))]
                         for req in ([list(k) for k in layout], None, [list(k) for k in layout] + [[1, 13]]):
                             cases.append(dict(kind="read", src="shape", g=g, req=req, entries=es))
                         if not es:
@@ -971,7 +1099,7 @@ def gen_read(tier, r):
         for a, i in ids:
             if r.random() < 0.75:
                 st = r.choice([None, None, 0, r.choice(A_FULL)])
-                es.append(["E", a, i, st, r.choice([None, r.randrange(100)])])
+                es.append(["E", a, i, st, r.choice([None, r.randrange(100), r.randrange(100), r.choice(SPECIAL_VALUES)])])
                 if r.random() < 0.2:
                     es.append(["E", a, i, r.choice([None, 0, -70402]), r.choice([None, 3])])
         if r.random() < 0.15:
@@ -999,7 +1127,7 @@ def gen_coap(tier, r):
                 ctr += 1
                 res = [[x[0], (60 + ctr + j) % 250 + 1] if x[0] == "B" else x for j, x in enumerate(vec)]
                 reads.append(dict(kind="coapread", src="vec", ids=[list(k) for k in layout], results=res))
-                reqs = [(a, i, 70 + j) for j, (a, i) in enumerate(layout)]
+                reqs = [(a, i, pick_value(ctr + j, 70 + j, SPECIAL_U8)) for j, (a, i) in enumerate(layout)]
                 perms = {ks(k): p for k, p in zip(layout, pm[ctr % len(pm)])}
                 puts.append(dict(kind="coapput", src="vec", reqs=reqs, perms=perms, results=res))
     for n in range(1, 4):
@@ -1017,9 +1145,9 @@ def gen_coap(tier, r):
         m = r.choice([len(ids)] * 6 + [len(ids) - 1, 0, len(ids) + 1])
         res = []
         for _ in range(max(m, 0)):
-            res.append(["B", r.randrange(1, 250)] if r.random() < 0.5 else ["S", r.choice(PDU_ALPHA + ([0] if r.random() < 0.1 else []))])
+            res.append(["B", r.choice([0, 255, r.randrange(1, 250), r.randrange(1, 250)])] if r.random() < 0.5 else ["S", r.choice(PDU_ALPHA + ([0] if r.random() < 0.1 else []))])
         reads.append(dict(kind="coapread", src="random", ids=[list(k) for k in ids], results=res))
-        reqs = [(a, i, r.randrange(1, 200)) for a, i in ids]
+        reqs = [(a, i, r.choice(SPECIAL_U8) if r.random() < 0.3 else r.randrange(1, 200)) for a, i in ids]
         perms = {ks(k): (r.choice([RW, RW, WO, RWT, RO]) if r.random() < 0.5 else any_perms(r)) for k in ids}
         puts.append(dict(kind="coapput", src="random", reqs=reqs, perms=perms, results=res))
     return reads, puts
@@ -1030,9 +1158,11 @@ def gen_ble(tier, r):
     kinds = PERM_CORE
     opts = [(p, s1, s2) for p in kinds for s1 in (0, 3, 6) for s2 in ((0, 6) if "tw" in p else (0,))]
     iids = [10, 11, 12, 13]
+    bctr = 0
     for n in (1, 2):
         for combo in itertools.product(opts, repeat=n):
-            items = [(1, iids[j], 90 + j, s1, s2) for j, (p, s1, s2) in enumerate(combo)]
+            bctr += 1
+            items = [(1, iids[j], pick_value(bctr + j, 90 + j, SPECIAL_U8), s1, s2) for j, (p, s1, s2) in enumerate(combo)]
             perms = {str(iids[j]): p for j, (p, _, _) in enumerate(combo)}
             cases.append(dict(kind="bleput", src="vec", items=items, perms=perms))
     for _ in range(2500 if tier == "quick" else 30000):
@@ -1041,7 +1171,7 @@ def gen_ble(tier, r):
         items = []
         for _ in range(n):
             i = r.choice(iids)
-            items.append((r.choice([1, 1, 1, 2]), i, r.randrange(1, 200),
+            items.append((r.choice([1, 1, 1, 2]), i, r.choice(SPECIAL_U8) if r.random() < 0.3 else r.randrange(1, 200),
                           0 if r.random() < 0.75 else r.randrange(1, 7), 0 if r.random() < 0.85 else r.randrange(1, 7)))
         cases.append(dict(kind="bleput", src="random", items=items, perms=perms))
     return cases
@@ -1071,14 +1201,14 @@ def gen_reactive(tier, r):
         for layout in R_LAYOUTS[n]:
             for vec in itertools.product(alpha, repeat=n):
                 ctr += 1
-                reqs = [(a, i, 20 + j) for j, (a, i) in enumerate(layout)]
+                reqs = [(a, i, pick_value(ctr + j, 20 + j)) for j, (a, i) in enumerate(layout)]
                 perms = {ks(k): p for k, p in zip(layout, pm[ctr % len(pm)])}
                 puts.append(dict(kind="ipput-r", src="vec", reqs=reqs, perms=perms,
                                  table={ks(k): s for k, s in zip(layout, vec)}))
             for vec in itertools.product([None] + alpha, repeat=n):
                 ctr += 1
                 gets.append(dict(kind="ipget-r", src="vec", req=[list(k) for k in layout],
-                                 table={ks(k): [s, 40 + (ctr + j) % 9 if s in (None, 0) else None]
+                                 table={ks(k): [s, pick_value(ctr + j, 40 + (ctr + j) % 9, every=4) if s in (None, 0) else None]
                                         for j, (k, s) in enumerate(zip(layout, vec))}))
             calpha = [["B", 0]] + [["S", m] for m in range(1, 7)]
             for vec in itertools.product(calpha if n <= 3 else calpha[:3], repeat=n):
@@ -1086,7 +1216,7 @@ def gen_reactive(tier, r):
                 table = {}
                 for j, ((a, i), o) in enumerate(zip(layout, vec)):
                     table.setdefault(str(i), [o[0], (60 + ctr + j) % 250 + 1] if o[0] == "B" else o)
-                reqs = [(a, i, 70 + j) for j, (a, i) in enumerate(layout)]
+                reqs = [(a, i, pick_value(ctr + j, 70 + j, SPECIAL_U8)) for j, (a, i) in enumerate(layout)]
                 perms = {ks(k): p for k, p in zip(layout, pm[ctr % len(pm)])}
                 cputs.append(dict(kind="coapput-r", src="vec", reqs=reqs, perms=perms, table=table))
                 creads.append(dict(kind="coapread-r", src="vec", ids=[list(k) for k in layout], table=table))
@@ -1095,11 +1225,13 @@ def gen_reactive(tier, r):
         n = r.choice([2, 3, 4, 4, 5, 6])
         ids = [r.choice(POOL) for _ in range(n)] if r.random() < 0.3 else r.sample(POOL, min(n, len(POOL)))
         table = {ks(k): (0 if r.random() < 0.5 else r.choice(A_FULL)) for k in set(ids)}
-        puts.append(dict(kind="ipput-r", src="random", reqs=[(a, i, r.randrange(1, 200)) for a, i in ids],
+        puts.append(dict(kind="ipput-r", src="random",
+                         reqs=[(a, i, r.choice(SPECIAL_VALUES) if r.random() < 0.3 else r.randrange(1, 200)) for a, i in ids],
                          perms={ks(k): (r.choice([RW, RW, WO, RWT, RO, WT]) if r.random() < 0.5 else any_perms(r))
                                 for k in set(ids)}, table=table))
         gets.append(dict(kind="ipget-r", src="random", req=[list(k) for k in ids],
-                         table={k: [s if r.random() < 0.7 else None, 5] if s == 0 else [s, None] for k, s in table.items()}))
+                         table={k: [s if r.random() < 0.7 else None, r.choice([5, 5] + SPECIAL_VALUES)] if s == 0 else [s, None]
+                                for k, s in table.items()}))
     return puts, gets, cputs, creads
 
 
@@ -1112,12 +1244,15 @@ def coverage_verdict(stream, want, sent, as_set=False):
     return None
 
 
-def oracle_ipput_reactive(case, res, sent):
+def oracle_ipput_reactive(case, res, sent, sent_vals=None):
     reqs = [tuple(q) for q in case["reqs"]]
     perms = case["perms"]
     sts = {(a, i): [case["table"][ks((a, i))]] for a, i, _ in reqs}
     v = oracle_write("ipput-reactive", reqs, lambda k: "pr" in perms[ks(k)].split(","), sts, res, "reactive", write_descr_token)
-    return v or coverage_verdict("ipput-reactive", [(a, i) for a, i, _ in reqs], sent)
+    v = v or coverage_verdict("ipput-reactive", [(a, i) for a, i, _ in reqs], sent)
+    if v is None and sent_vals is not None and sorted(map(str, sent_vals)) != sorted(map(str, reqs)):
+        v = ("value-sent-differs", f"ipput-reactive: asked to write {reqs} (value codes: {VALS}), the accessory received {sent_vals}")
+    return v
 
 
 def oracle_ipget_reactive(case, res, sent):
@@ -1506,12 +1641,26 @@ def run(ctx):
         cov.case("r" + json.dumps(c, sort_keys=True), bool(c["req"]) or bool(c["entries"]),
                  sample=dict(stream="fcl", case=c, impl=fmt_read(res)) if idx % 4001 == 17 else None,
                  read_src=c["src"], read_entries=min(len(c["entries"]), 6), read_entry_kinds=kinds,
+                 read_value_kinds="|".join(sorted({val_kind(e[4]) for e in c["entries"] if e[0] == "E"})) or "-",
                  read_global="none" if c["g"] is None else ("zero" if c["g"] == 0 else "error"),
                  read_result=fmt_read(res).split(" ")[0])
         if c["req"] is not None:
             res2 = loop.run_until_complete(ip.get(c))
             judge("ipget", c, fmt_read(res2), mg, oracle_read(c, res2, "ipget"))
             cov.case("g" + json.dumps(c, sort_keys=True), bool(c["req"]) or bool(c["entries"]), ipget_result=fmt_read(res2).split(" ")[0])
+
+    # ---- scripted IP reads again, the caller's own list / set changing while the GET is in flight (request-wide
+    #      statuses must still be applied to exactly the ids that were asked for)
+    icases = [] if replay else inflight_copies([c for c in rcases if c["req"] is not None], "req", ["set", "list"], 5)
+    if replay and replay.get("stream") == "ipget-inflight":
+        icases = [replay["case"]]
+    for idx, (c, mg) in enumerate(zip(icases, [canon_model_read(a) for a in drv.batch([line_read("ipget", c) for c in icases])])):
+        res2 = loop.run_until_complete(ip.get(c))
+        judge("ipget-inflight", c, fmt_read(res2), mg, oracle_read(c, res2, "ipget-inflight"))
+        cov.case("gi" + json.dumps(c, sort_keys=True), bool(c["req"]),
+                 sample=dict(stream="ipget-inflight", case=c, impl=fmt_read(res2)) if idx % 701 == 3 else None,
+                 ipget_inflight=ip.inflight_done or "not-fired",
+                 ipget_inflight_global="none" if c["g"] is None else ("zero" if c["g"] == 0 else "error"))
 
     # ---- IP writes
     wcases = gen_ipput(tier, rng(seed, "c13put"))
@@ -1533,6 +1682,7 @@ def run(ctx):
         cov.case("w" + json.dumps(c, sort_keys=True), bool(c["reqs"]) and (c["code"] == "204" or bool(sts)),
                  sample=dict(stream="ipput", case=c, impl=fmt_write(res)) if idx % 3001 == 29 else None,
                  put_src=c["src"], put_code=c["code"], put_reqs=len(c["reqs"]), put_status_mix=mix,
+                 put_value_kinds="|".join(sorted({val_kind(q[2]) for q in c["reqs"]})),
                  put_malformed=sum(1 for e in c["entries"] if e[0] == "M"), put_in_domain=ipput_in_domain(c),
                  put_perm_mix="+".join(sorted(set(c["perms"].values()))), put_result=fmt_write(res).split(" ")[0],
                  put_listener_calls=res[1].calls if not isinstance(res, str) else "-",
@@ -1568,20 +1718,27 @@ def run(ctx):
     if replay:
         for c in rputs + rgets + rcputs + rcreads:
             c["container"] = replay["case"].get("container", "list")
+    if not replay:
+        # the same cases again, the argument changing while the request is in flight (snapshot semantics expected)
+        rputs = rputs + inflight_copies(rputs, "reqs", ["list"], 4)
+        rgets = rgets + inflight_copies(rgets, "req", ["list", "set"], 4)
+        rcputs = rcputs + inflight_copies(rcputs, "reqs", ["list"], 3)
+        rcreads = rcreads + inflight_copies(rcreads, "ids", ["list", "set"], 3)
     failed_unsent = collections.Counter()
     pend = []
     for c in rputs:
         res = loop.run_until_complete(ip.put_reactive(c))
         sent, replied = [list(x) for x in ip.sent], [e for rr in ip.replied for e in rr]
         derived = dict(reqs=c["reqs"], perms=c["perms"], code="207" if ip.replied else "204", entries=replied)
-        pend.append((c, res, oracle_ipput_reactive(c, res, sent), line_ipput(derived), sent))
+        pend.append((c, res, oracle_ipput_reactive(c, res, sent, list(ip.sent_vals)), line_ipput(derived), sent))
     for idx, ((c, res, orc, _, sent), m) in enumerate(zip(pend, drv.batch([p[3] for p in pend]))):
         judge("ipput-reactive", dict(c, requests_sent=[[list(k) for k in q] for q in sent]), fmt_write(res), canon_model_write(m), orc)
         vals = list(c["table"].values())
         cov.case("rw" + json.dumps(c, sort_keys=True), bool(c["reqs"]),
                  sample=dict(stream="ipput-reactive", case=c, requests_sent=sent, impl=fmt_write(res)) if idx % 2503 == 5 else None,
                  rput_src=c["src"], rput_requests=len(sent), rput_aids=len({a for a, _, _ in c["reqs"]}),
-                 rput_container=c.get("container", "list"),
+                 rput_value_kinds="|".join(sorted({val_kind(q[2]) for q in c["reqs"]})),
+                 rput_container=c.get("container", "list"), rput_inflight=c.get("inflight") or "-",
                  rput_listener_calls=res[1].calls if not isinstance(res, str) else "-",
                  rput_mix="all-accepted" if all(v == 0 for v in vals) else ("all-rejected" if all(v != 0 for v in vals) else "mixed"),
                  rput_rejecting_aids=len({int(k.split(".")[0]) for k, v in c["table"].items() if v != 0}))
@@ -1594,7 +1751,8 @@ def run(ctx):
         judge("ipget-reactive", dict(c, requests_sent=[[list(k) for k in q] for q in sent]), fmt_read(res), canon_model_read(m), orc)
         cov.case("rg" + json.dumps(c, sort_keys=True), bool(c["req"]),
                  sample=dict(stream="ipget-reactive", case=c, requests_sent=sent, impl=fmt_read(res)) if idx % 2503 == 9 else None,
-                 rget_requests=len(sent), rget_aids=len({k[0] for k in c["req"]}), rget_container=c.get("container", "list"))
+                 rget_requests=len(sent), rget_aids=len({k[0] for k in c["req"]}), rget_container=c.get("container", "list"),
+                 rget_inflight=(c.get("container", "") + ":" + c["inflight"]) if c.get("inflight") else "-")
     for cases, write, name, oracle, line, canon, fmt in (
             (rcputs, True, "coapput-reactive", oracle_coapput, line_coapput, canon_model_write, fmt_write),
             (rcreads, False, "coapread-reactive", oracle_coapread, line_coapread, canon_model_read, fmt_read)):
@@ -1625,11 +1783,16 @@ def run(ctx):
                 want = [i for _, i, _ in c["reqs"]] if write else [k[1] for k in c["ids"]]
                 if sorted(i for q in sent for _, i in q) != sorted(want) or any(op != (2 if write else 3) for q in sent for op, _ in q):
                     orc = ("request-coverage", f"{name}: requested iids {want}, PDUs actually sent (opcode, iid) {sent}")
+                elif write:
+                    want_b = [(i, bytes([1, 1, int(impl_val(v)) & 0xFF]).hex()) for _, i, v in c["reqs"]]
+                    if sorted(coap.sent_bodies) != sorted(want_b):
+                        orc = ("value-sent-differs", f"{name}: asked to write {c['reqs']}, CHAR_WRITE bodies received (iid, TLV hex) {coap.sent_bodies}")
             judge(name, dict(c, pdus_sent=sent), fmt(res), canon(m), orc)
             cov.case(name + json.dumps(c, sort_keys=True), True,
                      sample=dict(stream=name, case=c, pdus_sent=sent, impl=fmt(res)) if idx % 1201 == 13 else None,
                      **{name.replace("-", "_") + "_requests": len(sent),
-                        name.replace("-", "_") + "_container": c.get("container", "list")})
+                        name.replace("-", "_") + "_container": c.get("container", "list"),
+                        name.replace("-", "_") + "_inflight": (c.get("container", "") + ":" + c["inflight"]) if c.get("inflight") else "-"})
     cov.extra["container_calls_not_judged"] = dict(failed_unsent)
 
     # ---- CoAP
@@ -1649,6 +1812,7 @@ def run(ctx):
         cov.case("cw" + json.dumps(c, sort_keys=True), bool(c["reqs"]) and bool(c["results"]),
                  sample=dict(stream="coapput", case=c, impl=fmt_write(res)) if idx % 2003 == 11 else None,
                  coapput_result=fmt_write(res).split(" ")[0],
+                 coapput_value_kinds="|".join(sorted({val_kind(q[2]) for q in c["reqs"]})),
                  coapput_listener_calls=res[1].calls if not isinstance(res, str) else "-",
                  coapput_mix="+".join(sorted({x[0] for x in c["results"]})) or "none")
 
@@ -1679,6 +1843,7 @@ def run(ctx):
         judge("bleput", dict(c, requests_sent=[list(x) for x in ble.calls]), res, m, orc)
         cov.case("b" + json.dumps(c, sort_keys=True), bool(c["items"]),
                  sample=dict(stream="bleput", case=c, impl=res) if idx % 1501 == 3 else None,
+                 ble_value_kinds="|".join(sorted({val_kind(it[2]) for it in c["items"]})),
                  ble_src=c["src"], ble_items=len(c["items"]), ble_container=c.get("container", "list"), ble_result=res.partition(" ; ")[2].split(" ")[0],
                  ble_perm_classes="|".join(sorted({perm_class(c["perms"][str(it[1])]) for it in c["items"]})),
                  ble_has_decor=any(d in c["perms"][str(it[1])].split(",") for it in c["items"] for d in PERM_DECOR[1:]))
